@@ -309,6 +309,8 @@ fn obs_event(rec: &mut Rec, mut ev: Map<String, Value>) -> Value {
     Value::Object(ev)
 }
 
+static REMOVE: std::sync::atomic::AtomicBool = std::sync::atomic::AtomicBool::new(false);
+
 fn record_one(rng: &mut Rng, case: u64, steps: usize, init: usize, extras: bool, sort_prob: u64, out: &mut Out) -> u64 {
     // choose 3..5 list kinds
     let nk = 3 + rng.below(3);
@@ -360,8 +362,32 @@ fn record_one(rng: &mut Rng, case: u64, steps: usize, init: usize, extras: bool,
     events += 1;
     for _ in 0..steps {
         let mut ev = Map::new();
-        let dice = if rng.chance(sort_prob, 100) { 10 } else { rng.below(10) };
+        let dice = if REMOVE.load(std::sync::atomic::Ordering::Relaxed) && rng.chance(1, 6) {
+            11
+        } else if rng.chance(sort_prob, 100) {
+            10
+        } else {
+            rng.below(10)
+        };
         match dice {
+            11 => {
+                // remove one element by name (ItemList::swap_remove: the last element of the list takes its place)
+                let k = *rng.pick(&rec.kinds);
+                let names: Vec<String> = observe_list(&mut rec.a2l.project.module[mi()], k).into_iter().map(|c| c.name).collect();
+                if names.is_empty() {
+                    ev.insert("ev".into(), json!("write"));
+                } else {
+                    let victim = names[rng.below(names.len())].clone();
+                    let module = &mut rec.a2l.project.module[mi()];
+                    per_kind!(k, module, |l| {
+                        l.swap_remove(&victim);
+                    });
+                    ev.insert("ev".into(), json!("remove"));
+                    ev.insert("kind".into(), json!(k));
+                    ev.insert("name".into(), json!(rank_of_name(&victim)));
+                    ev.insert("name_text".into(), json!(victim));
+                }
+            }
             10 => {
                 let before = rec.a2l.clone();
                 let r = guarded(|| rec.a2l.sort());
@@ -505,6 +531,7 @@ pub fn record(args: &Args) {
     let extras = args.num("extras", 0) != 0;
     let sort_prob = args.num("sortprob", 0);
     MODULE_INDEX.store(args.num("second", 0) as usize, std::sync::atomic::Ordering::Relaxed);
+    REMOVE.store(args.num("remove", 0) != 0, std::sync::atomic::Ordering::Relaxed);
     let mut out = Out::file(args.req("out"));
     let mut rng = Rng::new(seed);
     let mut events = 0;
